@@ -39,4 +39,22 @@ theorem submit_prefix_current {D : Type} (x : Src) (hx : x ∈ Gen.SubmitPrefix.
   rw [h]
   exact prefix_refines A c data flags b0 b1 hf hl ht hp
 
+/-- per-run obligation for the 5 base files -/
+theorem all_canon_base : Gen.SubmitPrefix.allBase.all (fun x => decide (x.prog = canonBase)) = true := by decide
+
+theorem all_count_base : 5 ≤ Gen.SubmitPrefix.allBase.length := by decide
+
+/-- every base-family submit of the current source: the three rejections are the model's `baseRejects`, a rejection
+    stores a non-zero error code and nothing else, an accepted submit clears the error before any hashing -/
+theorem base_prefix_current {D : Type} (x : Src) (hx : x ∈ Gen.SubmitPrefix.allBase)
+    (c : Ctx D) (flags ln : Nat) (b0 b1 : Bool) (hf : flags < 2^32) :
+    (run x.prog flags ln (absSt c b0 b1)).bad = false ∧
+    ((run x.prog flags ln (absSt c b0 b1)).returned = baseRejects c flags) ∧
+    (baseRejects c flags = false → (run x.prog flags ln (absSt c b0 b1)).s = absSt { c with error := 0 } b0 b1) ∧
+    (baseRejects c flags = true → ∃ code, code ≠ 0 ∧
+        (run x.prog flags ln (absSt c b0 b1)).s = absSt { c with error := code } b0 b1) := by
+  have h := of_decide_eq_true (List.all_eq_true.mp all_canon_base x hx)
+  rw [h]
+  exact base_prefix_refines c flags ln b0 b1 hf
+
 end IsalVerif.GenProps.SubmitPrefix
